@@ -1,5 +1,5 @@
 (* Correspondence checker for C16.  A case is (history, one observation per executed operation,
-   destinations that accept connections, destinations that accept and keep them).
+   destinations that are up: they accept connections and keep them).
    Observation after an operation (taken when the real hub is idle and the connections have settled,
    at most 2 s): the hub's rule table, its client table, the destination URLs that have an open
    websocket connection at the recording servers (one entry per connection), and - for a broadcast -
@@ -37,34 +37,34 @@ Definition clients_ok (s : st) (l : list (N * N)) : bool :=
 
 Definition live_dests (s : st) : list N := map (fun e => rdest (crule (snd e))) (clients s).
 
-Definition open_ok (s : st) (connectable : list N) (l : list N) : bool :=
+Definition open_ok (s : st) (reliable : list N) (l : list N) : bool :=
   nodupb l && subsetN l (live_dests s) &&
-  subsetN (filter (fun d => memN d connectable) (live_dests s)) l.
+  subsetN (filter (fun d => memN d reliable) (live_dests s)) l.
 
 Definition recv_ok (out reliable recv : list N) : bool :=
   subsetN recv out && subsetN (filter (fun d => memN d reliable) out) recv.
 
-Definition case := (list op * list obs * list N * list N)%type.
+Definition case := (list op * list obs * list N)%type.
 
-Fixpoint walk (s : st) (ops : list op) (bs : list obs) (connectable reliable : list N) : bool :=
+Fixpoint walk (s : st) (ops : list op) (bs : list obs) (reliable : list N) : bool :=
   match ops, bs with
   | o :: r, b :: br =>
       let '(s1, _, out) := step s o in
-      rules_ok s1 (o_rules b) && clients_ok s1 (o_clients b) && open_ok s1 connectable (o_open b) &&
-      recv_ok out reliable (o_recv b) && walk s1 r br connectable reliable
+      rules_ok s1 (o_rules b) && clients_ok s1 (o_clients b) && open_ok s1 reliable (o_open b) &&
+      recv_ok out reliable (o_recv b) && walk s1 r br reliable
   | _, [] => true
   | [], _ :: _ => false
   end.
 
 Definition case_ok (c : case) : bool :=
-  let '(ops, bs, connectable, reliable) := c in walk init ops bs connectable reliable.
+  let '(ops, bs, reliable) := c in walk init ops bs reliable.
 
 (* non-trivial: some client was cancelled (a rule replaced or deleted) and some broadcast was offered
    to a live client *)
 Definition is_cancel (e : ev) : bool := match e with ECancel _ => true | _ => false end.
 Definition is_enq (e : ev) : bool := match e with EEnq _ => true | _ => false end.
 Definition case_nontrivial (c : case) : bool :=
-  let '(ops, _, _, _) := c in
+  let '(ops, _, _) := c in
   existsb is_cancel (trace ops) && existsb is_enq (trace ops).
 
 Definition mismatches (l : list case) : list N := mismatch_idx case_ok 0 l.
